@@ -626,28 +626,29 @@ Fixpoint run_records (m : nat) (acts : list (action E)) (inrs : list bool) (q : 
 
 (* interp.executeAll: the final outcome is ONormal (status is in the state) or the error /
    fuel / stuck outcome that stopped the run *)
+Definition run_main (p : program E) (q1 : st) : st * outcome :=
+  match run_records n (p_actions p) (map (fun _ => false) (p_actions p)) q1 with
+  | (q2, OAbort AExit) => (q2, ONormal)
+  | r => r
+  end.
+Definition run_end (p : program E) (q2 : st) : st * outcome :=
+  match run_lists (p_end p) q2 with
+  | (q3, OAbort AExit) => (q3, ONormal)
+  | r => r
+  end.
+Definition after_begin (p : program E) (q1 : st) (exited : bool) : st * outcome :=
+  match p_actions p, end_is_empty (p_end p) with
+  | [], true => (q1, ONormal)                        (* only BEGIN: input is not read *)
+  | _, _ =>
+      match (if exited then (q1, ONormal) else run_main p q1) with
+      | (q2, ONormal) => run_end p q2
+      | r => r
+      end
+  end.
 Definition exec_prog (p : program E) (q : st) : st * outcome :=
-  let after_begin (q1 : st) (exited : bool) : st * outcome :=
-    match p_actions p, end_is_empty (p_end p) with
-    | [], true => (q1, ONormal)                      (* only BEGIN: input is not read *)
-    | _, _ =>
-        let r2 := if exited then (q1, ONormal)
-                  else match run_records n (p_actions p) (map (fun _ => false) (p_actions p)) q1 with
-                       | (q2, OAbort AExit) => (q2, ONormal)
-                       | r => r
-                       end in
-        match r2 with
-        | (q2, ONormal) =>
-            match run_lists (p_end p) q2 with
-            | (q3, OAbort AExit) => (q3, ONormal)
-            | r => r
-            end
-        | r => r
-        end
-    end in
   match run_lists (p_begin p) q with
-  | (q1, ONormal) => after_begin q1 false
-  | (q1, OAbort AExit) => after_begin q1 true
+  | (q1, ONormal) => after_begin p q1 false
+  | (q1, OAbort AExit) => after_begin p q1 true
   | r => r
   end.
 End Driver.
